@@ -126,6 +126,7 @@ def grep_forbidden():
             continue
         txt = open(os.path.join(COQ, f)).read()
         txt = re.sub(r"\(\*.*?\*\)", "", txt, flags=re.S)
+        txt = re.sub(r'"(?:[^"]|"")*"', '""', txt)  # string literals cannot declare anything
         # Variable/Hypothesis are allowed inside sections only
         depth = 0
         for ln, line in enumerate(txt.split("\n"), 1):
@@ -342,7 +343,7 @@ def run_check(pid, tier, seed):
     res = None
     if harness_ok:
         rcq, outq = sh([os.path.join(BUILD, "bin", "qv"), "--seed", str(seed), "--tier", tier, "--out", casedir, pid],
-                       env=dict(GOENV, VERIF_REPO=REPO, VERIF_ROOT=ROOT), timeout=6 * 3600 if tier == "thorough" else 1500)
+                       env=dict(GOENV, VERIF_REPO=REPO, VERIF_ROOT=ROOT), timeout=6 * 3600 if tier == "thorough" else 900)
         open(os.path.join(BUILD, "logs", "%s_qv.log" % pid), "w").write(outq)
         rp = os.path.join(casedir, "%s_result.json" % pid)
         if rcq != 0 or not os.path.exists(rp):
@@ -414,6 +415,7 @@ def run_check(pid, tier, seed):
     chk = None
     if tier == "thorough" and rc == 0:
         with Lock():
+            coq_make([], timeout=7200)   # every .vo must be current before the whole development is re-checked
             chk = coqchk_once(notes)
         if chk["rc"] != 0:
             p = write_replay(pid, "coqchk", {"property": pid, "kind": "coqchk failed", "detail": chk["tail"]})
